@@ -32,6 +32,7 @@ import (
 	"errors"
 	"fmt"
 	"regexp"
+	"sort"
 	"strconv"
 	"strings"
 	"time"
@@ -599,9 +600,26 @@ func parseMonthName(parts []string, monthPos int) (string, error) {
 	return CleanSpace(monthName), nil
 }
 
+// dateWordsRegexp converts one or more of the DateWords constants into a regexp
+// alternation. The words are matched literally (some of them contain a ".") and
+// longer words are tried first so that "before" is not read as "bef" followed
+// by something else.
+func dateWordsRegexp(dateWords ...string) string {
+	words := strings.Split(strings.Join(dateWords, "|"), "|")
+	sort.SliceStable(words, func(i, j int) bool {
+		return len(words[i]) > len(words[j])
+	})
+
+	for i, word := range words {
+		words[i] = regexp.QuoteMeta(word)
+	}
+
+	return strings.Join(words, "|")
+}
+
 var dateRegexp = regexp.MustCompile(
-	fmt.Sprintf(`(?i)^(%s|%s|%s)? ?(\d+ )?(\w+ )?(\d+)$`,
-		DateWordsAbout, DateWordsBefore, DateWordsAfter))
+	fmt.Sprintf(`(?i)^(%s)? ?(\d+ )?(\w+ )?(\d+)$`,
+		dateWordsRegexp(DateWordsAbout, DateWordsBefore, DateWordsAfter)))
 
 func parseDateParts(dateString string, isEndOfRange bool) Date {
 	parts := dateRegexp.FindStringSubmatch(dateString)
